@@ -1,6 +1,12 @@
 import AfkakProofs.Consumer.Inv1
 /-!
-# Quiescence after `stop()` (monitor `C13.qStep`): the invariant `QG`, leaf handlers, the processing loop
+# Quiescence after `stop()` (monitor `C13.qStep`) AND no crash (`C13.noCrashOk`), with or without a consumer group
+
+`B5_N1` … `B5_N9`: ONE invariant `QG` relating the state of the monitor `C13.qStep` to the model state along every trace
+(timers armed, requests outstanding and uncancelled, processor result pending, running/manual; the shutdown
+continuations in hand are counted: `x`), with two more fields - no `crash` observation so far, a commit in progress
+has something to commit - so that wherever the model would report a crash the proof has to show that the branch is
+not reachable.  This file: the invariant, leaf handlers.
 -/
 namespace Afkak.Proofs.Consumer.BN
 open Afkak.Consumer Afkak.Monitor Afkak.Consts Afkak.Proofs.Consumer
@@ -72,6 +78,8 @@ structure QG (x : Nat) (s : St) : Prop where
   one : nShut s.commitDs + gShut s.proc + x ≤ 1
   sd : s.shutdownD = false → nShut s.commitDs + gShut s.proc + x = 0
   sh : 0 < nShut s.commitDs + gShut s.proc + x → s.startD ≠ .none ∧ s.shuttingDown = true
+  ncOut : ∀ site, Item.ob (.crash site) ∉ s.out
+  lp : s.commitDs ≠ [] → s.lastProcessed.isSome = true
 
 def PQ (h : St → St) : Prop := ∀ x s, QG x s → QG x (h s)
 
@@ -100,11 +108,8 @@ macro "qg_fields" : tactic => `(tactic|
 syntax "qg_leaf" ident : tactic
 macro_rules
   | `(tactic| qg_leaf $h) => `(tactic|
-      (obtain ⟨q1, q2, q3, q4, q5, q6, q7, q8, q9, q10, q11, q12, q13, q14, q15, q16, q17, q18, q19, q20, q21, q22, q23, q24, q25, q26⟩ := $h
+      (obtain ⟨q1, q2, q3, q4, q5, q6, q7, q8, q9, q10, q11, q12, q13, q14, q15, q16, q17, q18, q19, q20, q21, q22, q23, q24, q25, q26, q27, q28⟩ := $h
        qg_fields))
-
-theorem crash_pq (site : String) : PQ (crash site) := by
-  intro x s h; unfold crash; qg_leaf h
 
 theorem startErrback_pq (f : Fail) : PQ (startErrback f) := by
   intro x s h; unfold startErrback; split <;> qg_leaf h
